@@ -106,7 +106,13 @@ static void op_between(Ctx& c) {
 static void op_tplus(Ctx& c) {   // tangent + tangent and tangent - tangent with Jacobians
   T a = tanA(c), b = tanB(c); Jac J1, J2, J3, J4; T p = a.plus(b, J1, J2); T m = a.minus(b, J3, J4);
   HEAD("tplus") o.vec("t", a.coeffs()); o.vec("s", b.coeffs()); o.vec("rt", p.coeffs()); o.vec("rt2", m.coeffs());
-  o.mat("Ja", J1); o.mat("Jb", J2); o.mat("Jc", J3); o.mat("Jd", J4); o.end();
+  o.mat("Ja", J1); o.mat("Jb", J2); o.mat("Jc", J3); o.mat("Jd", J4);
+  // each output requested alone, and none: same value, same Jacobian
+  { Jac K1, K2, K3, K4; const typename T::OptJacobianRef _{};
+    T p1 = a.plus(b, K1, _), p2 = a.plus(b, _, K2), p0 = a.plus(b), m1 = a.minus(b, K3, _), m2 = a.minus(b, _, K4), m0 = a.minus(b);
+    o.mat("Ja1", K1); o.mat("Jb1", K2); o.mat("Jc1", K3); o.mat("Jd1", K4);
+    o.vec("rt_a", p1.coeffs()); o.vec("rt_b", p2.coeffs()); o.vec("rt_0", p0.coeffs()); o.vec("rt2_a", m1.coeffs()); o.vec("rt2_b", m2.coeffs()); o.vec("rt2_0", m0.coeffs()); }
+  o.end();
 }
 static void op_jacs(Ctx& c) {    // rjac ljac rjacinv ljacinv smallAdj of one tangent
   T t = tanA(c);
